@@ -263,6 +263,144 @@ fn seed_sweep(r: &mut Runner, filter: bool, t: bool) {
     }
 }
 
+/// A key type whose signatures the harness decides: under the FIRST seed a build asks for, keys 2j and
+/// 2j+1 (j < PAIRS) get the same signature, under every later seed all signatures are distinct. The first
+/// attempt of a build over such keys therefore fails in a chosen way (duplicate edge: unpeelable, and
+/// unsolvable when the two values differ; duplicate signature when duplicates are checked) and the
+/// retry must succeed - a deterministic deviation from the default environment answer "the first seed works".
+#[derive(Clone, Copy, Debug)]
+struct Crafted(u64);
+static CRAFT_FIRST: std::sync::atomic::AtomicU64 = std::sync::atomic::AtomicU64::new(0);
+static CRAFT_SEEN: std::sync::atomic::AtomicBool = std::sync::atomic::AtomicBool::new(false);
+static CRAFT_PAIRS: std::sync::atomic::AtomicU64 = std::sync::atomic::AtomicU64::new(0);
+fn crafted_sig(k: u64, seed: u64) -> [u64; 2] {
+    use std::sync::atomic::Ordering::SeqCst;
+    if !CRAFT_SEEN.swap(true, SeqCst) {
+        CRAFT_FIRST.store(seed, SeqCst);
+    }
+    let base = if seed == CRAFT_FIRST.load(SeqCst) && k < 2 * CRAFT_PAIRS.load(SeqCst) { k & !1 } else { k };
+    [mix(base ^ seed), mix(base.wrapping_add(0x9E37_79B9_7F4A_7C15) ^ seed.rotate_left(29))]
+}
+impl ToSig<[u64; 2]> for Crafted {
+    fn to_sig(key: impl std::borrow::Borrow<Self>, seed: u64) -> [u64; 2] {
+        crafted_sig(key.borrow().0, seed)
+    }
+}
+impl ToSig<[u64; 1]> for Crafted {
+    fn to_sig(key: impl std::borrow::Borrow<Self>, seed: u64) -> [u64; 1] {
+        [crafted_sig(key.borrow().0, seed)[0]]
+    }
+}
+
+/// Counts the passes over the crafted keys.
+struct CraftedKeys {
+    n: usize,
+    pos: usize,
+    cur: Crafted,
+    passes: std::sync::Arc<std::sync::atomic::AtomicUsize>,
+}
+impl<'lend> lender::Lending<'lend> for CraftedKeys {
+    type Lend = Result<&'lend Crafted, std::convert::Infallible>;
+}
+impl lender::Lender for CraftedKeys {
+    fn next(&mut self) -> Option<lender::Lend<'_, Self>> {
+        if self.pos >= self.n {
+            return None;
+        }
+        self.cur = Crafted(self.pos as u64);
+        self.pos += 1;
+        Some(Ok(&self.cur))
+    }
+}
+impl sux::utils::RewindableIoLender<Crafted> for CraftedKeys {
+    type Error = std::convert::Infallible;
+    fn rewind(mut self) -> Result<Self, Self::Error> {
+        self.pos = 0;
+        self.passes.fetch_add(1, std::sync::atomic::Ordering::SeqCst);
+        Ok(self)
+    }
+}
+
+macro_rules! crafted_case {
+    ($r:expr, $filter:expr, $name:expr, $n:expr, $pairs:expr, $cfg:expr, W = $W:ty, D = $D:ty, S = $S:ty, E = $E:ty) => {{
+        let r: &mut Runner = $r;
+        let (n, pairs, cfg, name, filter): (usize, u64, &Cfg, &str, bool) = ($n, $pairs, $cfg, $name, $filter);
+        let p = if filter { "C08" } else { "C07" };
+        if r.ctx.case(|| format!("VBuilder::<first-attempt-fails-by-construction> {} {name} n={n} colliding_pairs={pairs} cfg={}", if filter { "filter" } else { "function" }, cfg.describe())) {
+            r.ctx.nontrivial();
+            CRAFT_SEEN.store(false, std::sync::atomic::Ordering::SeqCst);
+            CRAFT_PAIRS.store(pairs, std::sync::atomic::Ordering::SeqCst);
+            let passes = std::sync::Arc::new(std::sync::atomic::AtomicUsize::new(1));
+            let keys = CraftedKeys { n, pos: 0, cur: Crafted(0), passes: passes.clone() };
+            let res = guard(|| -> Result<(usize, usize), String> {
+                let b = configure!(VBuilder::<$W, $D, $S, $E>::default(), cfg, n);
+                crafted_case!(@go filter, b, keys, n, $W)
+            });
+            r.after_build(&format!("crafted {name} n={n}"));
+            let passes = passes.load(std::sync::atomic::Ordering::SeqCst);
+            match res {
+                Outcome::Panic(m) => r.ctx.violation(&format!("{p}|VBuilder::<retry-after-failed-attempt>|panic"), format!("{name} n={n} pairs={pairs} cfg={}: {m}", cfg.describe())),
+                Outcome::Ret(Err(e)) => r.ctx.violation(&format!("{p}|VBuilder::<retry-after-failed-attempt>|error"), format!("{name} n={n} pairs={pairs} cfg={}: {e}", cfg.describe())),
+                Outcome::Ret(Ok((len, wrong))) => {
+                    r.ctx.add("crafted_builds_with_retry", u64::from(passes >= 2));
+                    if len != n || wrong > 0 {
+                        r.ctx.violation(&format!("{p}|VBuilder::<retry-after-failed-attempt>|wrong-values"), format!("{name} n={n} pairs={pairs} cfg={} ({passes} passes): len() = {len}, {wrong} keys wrong / not contained", cfg.describe()));
+                    }
+                }
+            }
+        }
+    }};
+    (@go $filter:expr, $b:expr, $keys:expr, $n:expr, $W:ty) => {{
+        let n: usize = $n;
+        if $filter {
+            let f = $b.try_build_filter($keys, no_logging![]).map_err(|e| format!("{e:#}"))?;
+            Ok((f.len(), (0..n).filter(|&i| !f.contains(Crafted(i as u64))).count()))
+        } else {
+            let f = $b.try_build_func($keys, FromIntoIterator::from((0..n).map(|i| (i % 251) as $W)), no_logging![]).map_err(|e| format!("{e:#}"))?;
+            Ok((f.len(), (0..n).filter(|&i| f.get(Crafted(i as u64)) != (i % 251) as $W).count()))
+        }
+    }};
+}
+
+/// Builds whose first attempt fails by construction, for every solver path (lazy Gaussian elimination, the
+/// three peelers, sharded and unsharded) and failure kind.
+fn crafted_failures(r: &mut Runner, filter: bool, t: bool) {
+    let d = Cfg::default();
+    let cfgs = [
+        d.clone(),
+        Cfg { threads: 1, ..d.clone() },
+        Cfg { check_dups: true, ..d.clone() },
+        Cfg { low_mem: Some(true), ..d.clone() },
+        Cfg { low_mem: Some(false), threads: 2, ..d.clone() },
+        Cfg { offline: true, hint: Hint::Absent, ..d.clone() },
+    ];
+    let mut sizes: Vec<usize> = vec![2, 3, 10, 1000, 100_001, 150_000];
+    if t {
+        sizes.extend([800_001, 1_000_000]);
+    }
+    for &n in &sizes {
+        for pairs in [1u64, 3] {
+            if 2 * pairs as usize > n {
+                continue;
+            }
+            for (ci, c) in cfgs.iter().enumerate() {
+                if n > 1000 && pairs == 3 && ci != 0 {
+                    continue;
+                }
+                crafted_case!(r, filter, "u8,Box<[u8]>,[u64;2],FuseLge3Shards", n, pairs, c, W = u8, D = Box<[u8]>, S = [u64; 2], E = FuseLge3Shards);
+                crafted_case!(r, filter, "u8,Box<[u8]>,[u64;1],FuseLge3NoShards", n, pairs, c, W = u8, D = Box<[u8]>, S = [u64; 1], E = FuseLge3NoShards);
+                if n <= 150_000 {
+                    crafted_case!(r, filter, "u8,Box<[u8]>,[u64;2],FuseLge3NoShards", n, pairs, c, W = u8, D = Box<[u8]>, S = [u64; 2], E = FuseLge3NoShards);
+                    crafted_case!(r, filter, "u8,Box<[u8]>,[u64;2],FuseLge3FullSigs", n, pairs, c, W = u8, D = Box<[u8]>, S = [u64; 2], E = FuseLge3FullSigs);
+                }
+                if n <= 1000 && n != 2 {
+                    crafted_case!(r, filter, "u8,Box<[u8]>,[u64;2],Mwhc3Shards", n, pairs, c, W = u8, D = Box<[u8]>, S = [u64; 2], E = Mwhc3Shards);
+                }
+            }
+        }
+    }
+}
+
 /// Event log of the par_solve hooks (one build at a time per process).
 static EVENTS: std::sync::Mutex<Vec<(&'static str, usize, usize)>> = std::sync::Mutex::new(Vec::new());
 fn on_event(site: &'static str, a: usize, b: usize) {
@@ -745,7 +883,9 @@ fn main() {
         hang_probes(&mut r);
         funcs(&mut r, t);
         seed_sweep(&mut r, false, t);
+        crafted_failures(&mut r, false, t);
     } else {
+        crafted_failures(&mut r, true, t);
         filters(&mut r, t);
         seed_sweep(&mut r, true, t);
     }
